@@ -249,7 +249,7 @@ static void ProcessFile(char const* FileName, LongWord Offset) {
                 InpStart += Offset;
                 ErgStart = max(StartAdr, InpStart);
                 ErgStop  = min(StopAdr, InpStart + (InpLen / Gran) - 1);
-                doit     = (ErgStop >= ErgStart);
+                doit     = (InpLen > 0) && (ErgStop >= ErgStart); /* an empty record covers no address */
                 if (doit) {
                     ErgLen = (ErgStop + 1 - ErgStart) * Gran;
                     if (AddChunk(&UsedList, ErgStart, ErgStop - ErgStart + 1, True)) {
@@ -396,15 +396,15 @@ static void MeasureFile(char const* FileName, LongWord Offset) {
             if (FilterOK(CPU) && (Segment == ValidSegment)) {
                 Adr += Offset;
                 EndAdr = Adr + (Length / Gran) - 1;
-                if (Gran > MaxGran) {
+                if ((Length > 0) && (Gran > MaxGran)) {
                     MaxGran = Gran;
                 }
-                if (StartAuto) {
+                if ((StartAuto) && (Length > 0)) {
                     if (StartAdr > Adr) {
                         StartAdr = Adr;
                     }
                 }
-                if (StopAuto) {
+                if ((StopAuto) && (Length > 0)) {
                     if (EndAdr > StopAdr) {
                         StopAdr = EndAdr;
                     }
